@@ -8,13 +8,16 @@ import (
 	"flag"
 	"fmt"
 	"os"
+	"os/signal"
 	"regexp"
 	"runtime/debug"
 	"strings"
+	"syscall"
 	"testing"
 	"testing/synctest"
 	"time"
 
+	"github.com/form3tech-oss/f1/v2/internal/metrics"
 	"github.com/form3tech-oss/f1/v2/internal/verifsim/simrt"
 )
 
@@ -40,6 +43,14 @@ var (
 	fStart    = flag.Int("sim.start", 0, "first run number of this worker (restart after a crash)")
 	fShrinkS  = flag.Float64("sim.shrinkbudget", 45, "wall-clock budget for minimisation in seconds")
 )
+
+func init() {
+	// T.Time records into the process-wide metrics instance, which f1's root command initialises
+	metrics.Init(true)
+	// the runtime's signal loop goroutine must not be born inside a synctest bubble (f1.ExecuteWithArgs calls
+	// signal.Notify): start it here
+	signal.Notify(make(chan os.Signal, 1), syscall.SIGUSR2)
+}
 
 func splitmix(x uint64) uint64 {
 	x += 0x9e3779b97f4a7c15
